@@ -115,7 +115,7 @@ func (r *callRes) wait(d time.Duration) string {
 	}
 }
 
-const concTimeout = 5 * time.Second
+const concTimeout = 20 * time.Second // generous: only failing runs wait this long; a loaded machine must not look like a deadlock
 
 type concEnv struct {
 	d    *simfs.Disk
